@@ -19,13 +19,13 @@ def iteration_protocol(I, it):
             return I.wrap_int(e)
         return z3.Length(t), el
     if isinstance(it, STup):
-        return I.mk_len(it.t), (lambda k: I.kind_wrap(it.ek, I.mk_nth(it.t, k)))
+        return I.mk_len(it.t), (lambda k: I.kind_wrap(it.ek, I.mk_nth(it.t, k, True)))
     if isinstance(it, tuple):
         ek = I.seq_elem_kind(it)
         if ek is None:
             return z3.IntVal(0), (lambda k: None)
         t = I.tuple_seq_term(it, ek)
-        return I.mk_len(t), (lambda k: I.kind_wrap(ek, I.mk_nth(t, k)))
+        return I.mk_len(t), (lambda k: I.kind_wrap(ek, I.mk_nth(t, k, True)))
     if isinstance(it, range):
         it = GenVal('range', (it.start, it.stop, it.step))
     if isinstance(it, Ref):
@@ -35,7 +35,7 @@ def iteration_protocol(I, it):
             if ek is None:
                 return z3.IntVal(0), (lambda k: None)
             t = I.list_seq_term(c, ek)
-            return I.mk_len(t), (lambda k: I.kind_wrap(ek, I.mk_nth(t, k)))
+            return I.mk_len(t), (lambda k: I.kind_wrap(ek, I.mk_nth(t, k, True)))
         if isinstance(c, BACell):
             t = c.t
 
